@@ -179,12 +179,12 @@ def run(ctx: Ctx):
     base_tenalg = repo.module("tensorly.tenalg.base_tenalg")
     scan_mods = mods + [core, base_tenalg, repo.module("tensorly")]
 
-    rule_R1(ctx, scan_mods)
-    rule_R2(ctx, mgrs)
-    rule_R3(ctx, scan_mods, mgrs)
-    rule_R4(ctx, mgrs)
-    rule_R5(ctx, mgrs)
-    rule_R6(ctx, mgrs)
+    ctx.guarded(rule_R1, ctx, scan_mods)
+    ctx.guarded(rule_R2, ctx, mgrs)
+    ctx.guarded(rule_R3, ctx, scan_mods, mgrs)
+    ctx.guarded(rule_R4, ctx, mgrs)
+    ctx.guarded(rule_R5, ctx, mgrs)
+    ctx.guarded(rule_R6, ctx, mgrs)
     res.stats["managers"] = [m.qname for m in mgrs]
     res.stats["files_scanned"] = [m.rel for m in scan_mods]
 
@@ -552,6 +552,15 @@ def rule_R4(ctx: Ctx, mgrs):
         if len(yields) != 1:
             ctx.finding("R4", bc, bc.node, f"backend_context has {len(yields)} yield expressions; a context manager generator must yield exactly once", construct="yield count")
             continue
+        y = yields[0]
+        in_try_finally = False
+        for t in own_scope_nodes(bc.node):
+            if isinstance(t, ast.Try) and t.finalbody and any(x is y for b in t.body for x in ast.walk(b)):
+                if any(isinstance(c, ast.Call) and call_name(c) == "set_backend" for fb in t.finalbody for c in ast.walk(fb)):
+                    in_try_finally = True
+        res.instance("R4", f"{bc.qname}: yield inside try/finally that restores", sample={"ok": in_try_finally})
+        if not in_try_finally:
+            ctx.finding("R4", bc, y, "the yield is not inside a try whose finally clause restores the previous backend: when the with-body raises, the context exits without restoring", construct="yield outside try/finally")
         params = bc.call_params
         if not params or "local_threadsafe" not in bc.all_params:
             raise AnalysisError(f"{bc.qname}: unexpected signature {bc.all_params}")
